@@ -462,7 +462,7 @@ Proof.
         change (mkPT match t with Some t0 => t0 | None => [] end (c :: conts) (exps_of body) (code_of body) (S (idx + 1 + length comments)) :: map mt_test acc) with (map mt_test (x :: acc)).
         change (cfg :: map mt_cfg acc) with (map mt_cfg (x :: acc)).
         unfold flush. cbn [lp_in_command ts_title]. fold x. unfold cl in E. rewrite E. cbn [rev]. rewrite <- !app_assoc. reflexivity.
-      * cbn [code_lines Markdown.feed_code]. unfold end_testcase. cbn [cl lp_cmd lp_exps]. rewrite Nat.ltb_irrefl.
+      * cbn [code_lines Markdown.feed_code]. unfold end_testcase. cbn [cl lp_cmd lp_exps lp_code]. rewrite Nat.ltb_irrefl.
         eapply IH. exact Hd.
 Qed.
 
